@@ -39,6 +39,14 @@
 (*  plus seed*[r]x, non-symmetric blocks; arbitrary integer array number     *)
 (*  seed); scale : [s, t] (fc -> s fc, masses -> t masses).                   *)
 (*                                                                            *)
+(* What Phonopy.run_qpoints REPORTS (dynamical_matrices, frequencies,          *)
+(* eigenvectors) is this Dyn / Freq and nothing else: a function of (force    *)
+(* constants, masses, q) only, independent of which other outputs are         *)
+(* requested and of the build of the extension.  That statement, judged on    *)
+(* logged runs of all option combinations on both builds, is                  *)
+(* spec/DynMatReport.tla (dOK/fOK there mean "equals the `herm` series of     *)
+(* this module").                                                             *)
+(*                                                                            *)
 (* TLC NOTE.  TLC caches LET definitions and operator arguments only while    *)
 (* it evaluates a next-state action; in invariants and constants they are     *)
 (* re-evaluated at every use.  All judgements are therefore evaluated inside  *)
